@@ -35,7 +35,7 @@ ENGINES = {
 PROP = {
     "engines": ["reopen"],
     "lean_modules": ["AxVerif.Model.Db", "AxVerif.Model.Config", "AxVerif.Model.Reopen", "AxVerif.Lemmas.Reopen", "AxVerif.Driver.Reopen"],
-    "rule": "one case = creation-time configuration (page size in {4,8,16,64} KiB, cache in {64,512,10000}, pool 1-4, min keys 3-5, "
+    "rule": "one case = creation-time configuration (page size in {4,8,16,64} KiB, cache in {64,512,10000} and, in one sixth of the configurations, {65535,65536,65538,131072,200000} — at and beyond the 16-bit header field —, pool 1-4, min keys 3-5, "
             "siblings 1-3) + a history cut by 1-4 `reopen` ops (close by drop / flush+drop / drop with leaked open sessions; a different "
             "configuration passed to every open): DDL (tables with and without UNIQUE / NOT NULL, DROP TABLE, re-CREATE of a dropped "
             "name), autocommit and batch inserts, deletes, updates, 1-3 concurrent sessions that commit / roll back / are dropped or "
